@@ -332,10 +332,53 @@ def _derive_item(rules, it, afc, max_rep, limit, depth):
 
 
 def class_members(cls, universe: str) -> list[str]:
+    """Members of a character class within `universe`; characters the class names individually (e.g. [eE], [+-])
+    are always members, ranges are intersected with the universe, negated classes are taken relative to it."""
     _, neg, items = cls
     out = []
+    if not neg:
+        for lo, hi in items:
+            if lo == hi and lo not in out:
+                out.append(lo)
     for ch in universe:
         inside = any(lo <= ch <= hi for lo, hi in items)
-        if inside != neg:
+        if inside != neg and ch not in out:
             out.append(ch)
     return out
+
+
+def count(rules: dict, node_alts: list, alphabet_for_class, max_rep: int, depth: int = 0) -> int:
+    """Number of derivations derive() would produce (upper bound: duplicates are counted)."""
+    if depth > 12:
+        return 0
+    total = 0
+    for seq in node_alts:
+        n = 1
+        for it in seq:
+            n *= _count_item(rules, it, alphabet_for_class, max_rep, depth)
+        total += n
+    return total
+
+
+def _count_item(rules, it, afc, max_rep, depth):
+    k = it[0]
+    if k == "lit":
+        return 1
+    if k == "cls":
+        return len(afc(it))
+    if k == "any":
+        return len(afc(("cls", True, [("\n", "\n")])))
+    if k == "ref":
+        if it[1] == "ws":
+            return 1
+        if it[1] not in rules:
+            return 0
+        return count(rules, rules[it[1]], afc, max_rep, depth + 1)
+    if k == "grp":
+        return count(rules, it[1], afc, max_rep, depth + 1)
+    if k == "rep":
+        b = _count_item(rules, it[1], afc, max_rep, depth)
+        lo, hi = it[2], it[3]
+        hi = min(hi if hi is not None else max(lo, max_rep), max(lo, max_rep))
+        return sum(b ** n for n in range(lo, hi + 1))
+    return 0
